@@ -115,6 +115,30 @@ async def run_all(problems):
         b = await s.enqueue_task("b", "exit 0", str(d), None, [a])
         return {a: L.KILLED, b: (L.KILLED, L.FAILED)}
 
+    async def two_deps(s, d):
+        a = await s.enqueue_task("a", "sleep 0.5; touch a.marker", str(d), None, [])
+        b = await s.enqueue_task("b", "touch b.marker", str(d), None, [])
+        c = await s.enqueue_task("c", "test -f a.marker && test -f b.marker", str(d), None, [a, b])
+        return {a: L.COMPLETED, b: L.COMPLETED, c: L.COMPLETED}
+
+    async def timeout_kills(s, d):
+        a = await s.enqueue_task("a", "sleep 1; touch late.marker", str(d), 0.2, [])
+        await settle(s, [a])
+        await asyncio.sleep(1.3)
+        if (d / "late.marker").exists():
+            problems.append("time limit: the process of the timed-out task kept running and wrote a file afterwards")
+        return {a: L.KILLED}
+
+    async def cancel_kills(s, d):
+        a = await s.enqueue_task("a", "sleep 1; touch late.marker", str(d), None, [])
+        await asyncio.sleep(0.2)
+        await s.cancel_task(a)
+        await settle(s, [a])
+        await asyncio.sleep(1.3)
+        if (d / "late.marker").exists():
+            problems.append("cancel: the process of the cancelled task kept running and wrote a file afterwards")
+        return {a: L.CANCELLED}
+
     async def no_logs_dir(s, d):
         shutil.rmtree(d / ".gwf" / "logs")
         a = await s.enqueue_task("a", "exit 0", str(d), None, [])
@@ -125,7 +149,9 @@ async def run_all(problems):
                             ("missing working directory", 1, missing_dir), ("unknown dependency id", 1, unknown_dep),
                             ("cancel while waiting for a dependency, then two tasks on one core", 1, cancel_waiting),
                             ("cancel running / finished", 2, cancel_running_and_finished),
-                            ("time limit", 1, timeout), ("log directory missing", 1, no_logs_dir)):
+                            ("time limit", 1, timeout), ("log directory missing", 1, no_logs_dir),
+                            ("two dependencies, one slow", 2, two_deps), ("time limit kills the process", 1, timeout_kills),
+                            ("cancel kills the process", 1, cancel_kills)):
         try:
             await asyncio.wait_for(scenario(name, cores, fn, problems), timeout=40)
         except asyncio.TimeoutError:
@@ -144,7 +170,7 @@ def replay(eng, ob, model, seed):
     finally:
         logging.disable(logging.NOTSET)
     if not problems:
-        return {"failed_on_real_code": False, "candidates_tried": 9, "bound": "9 fixed scenarios, <= 5 tasks, 1-2 cores"}
+        return {"failed_on_real_code": False, "candidates_tried": 12, "bound": "12 fixed scenarios, <= 5 tasks, 1-2 cores"}
     p = " ".join(problems)
     wc = "core-semaphore-over-released" if "semaphore holds" in p or "RUNNING at once" in p else (
         "task-left-in-non-final-state" if "is left in state" in p else "local-other")
@@ -189,6 +215,11 @@ async def server_case(problems):
             await asyncio.sleep(0.02)
         if not srv.server.is_serving():
             problems.append("server: stopped serving after malformed / incomplete / unknown requests")
+            return
+        await talk([(json.dumps({"__kind__": "cancel_task", "tid": ta}) + "\n").encode()])
+        await asyncio.sleep(0.05)
+        if not srv.server.is_serving():
+            problems.append("server: stopped serving after a cancel_task request")
             return
         more = await talk([enq("b", "exit 0", [ta]), enq("c", "exit 0")], read=2)
         ids = [ta] + [m["tid"] for m in more]
